@@ -120,10 +120,19 @@ func genC04Case(t *rapid.T) *StructCase {
 		genFlags.bulk = true
 		return &StructCase{Root: desc.Ptr(pt), Val: desc.V{E: []desc.V{val}}}
 	}
+	withFnMarks := rapid.IntRange(0, 5).Draw(t, "fnMarks") == 3
+	if withFnMarks {
+		// functions given for the call under names that merely BEGIN like the markers of nested validation:
+		// a field that carries such a name is not a marked field
+		g.containerMarks = append(g.containerMarks, "required_if", "existing", "requiredx", "exist_in")
+	}
 	ty, _ := g.genStruct(0)
 	// group clauses name their object by path too
 	walkTypes(&ty, func(st *desc.T) { addGroups(t, st, "valid") })
 	c := &StructCase{Root: desc.Ptr(ty), Val: desc.V{E: []desc.V{g.genValueFor(ty, 0)}}}
+	if withFnMarks {
+		c.CallFns = []string{"required_if", "existing", "requiredx", "exist_in"}
+	}
 	if rapid.IntRange(0, 3).Draw(t, "top") == 0 {
 		c.Root = desc.Map(desc.Scalar("string"), ty)
 		c.Val = g.genValueFor(c.Root, 0)
